@@ -47,6 +47,8 @@ def random_config(rng, flavour="mixed"):
     total = 0
     for s in range(ns):
         steps = rng.randint(1, 6)
+        if ns > 1 and rng.random() < 0.12:
+            steps = 0                      # a session of no steps is a valid setting: it begins and ends, nothing else
         sess = {"sessionName": s, "iterationSteps": steps, "withOrderPlacement": rng.random() < 0.85,
                 "withOrderExecution": rng.random() < 0.65, "withPrint": False,
                 "maxNormalOrders": rng.choice([0, 1, 2, 3, 5]), "maxHighFrequencyOrders": rng.choice([0, 1, 2]),
@@ -100,6 +102,34 @@ def abort_phase(tb):
     return "other"
 
 
+def declared_hooks(cfg):
+    """The hooks the probe events of a configuration DECLARE (what C13 calls registered), derived from the configuration
+    alone: event ids count the entries of the sessions' event lists in order; one record per declared hook
+    [event id, type, before, times or [-1], filter kind, filter market id]."""
+    mid = {n: i for i, n in enumerate(cfg["simulation"]["markets"])}
+    hooks, bump = [], []
+    eid = 0
+    for s in cfg["simulation"]["sessions"]:
+        for en in s.get("events", []):
+            e = cfg[en]
+            if e.get("class") == "ProbeEvent":
+                for typ, before, times, flt in e.get("hooks", []):
+                    fk, fm = 0, -1
+                    if flt == "class:Market":
+                        fk = 1
+                    elif flt == "class:IndexMarket":
+                        fk = 2
+                    elif flt.startswith("inst:"):
+                        fk, fm = 3, mid[flt[5:]]
+                    hooks.append([eid, typ, bool(before), [-1] if times is None else [int(x) for x in times], fk, fm])
+                if e.get("dupRegister"):
+                    hooks.append([eid, "market", True, [int(e["dupRegister"][2])], 3, mid[e["dupRegister"][0]]])
+                if e.get("bump"):
+                    bump.append([eid, int(e["bump"])])
+            eid += 1
+    return hooks, bump
+
+
 def session_truth(cfg, sim):
     """Session parameters AS CONFIGURED (what the scheduling properties are stated over): explicit keys of the session's
     json entry win; the Session object is consulted only for what the entry leaves to defaults or inheritance."""
@@ -133,19 +163,7 @@ def execute(cfg, seed, exact=True, forced_draws=None, scripts=None, extra_classe
                 runner.class_register(c)
             runner._setup()
             sim = runner.simulator
-            hooks, bump = [], []
-            for h in sim.event_hooks:
-                if isinstance(h.event, probes.ProbeEvent):
-                    fk, fm = 0, -1
-                    if h.specific_instance is not None:
-                        fk, fm = 3, int(h.specific_instance.market_id)
-                    elif h.specific_class is not None:
-                        fk = 2 if h.specific_class is probes.IndexMarket else 1
-                    hooks.append([int(h.event.event_id), h.hook_type, bool(h.is_before),
-                                  [-1] if h.time is None else [int(x) for x in h.time], fk, fm])
-            for ev in sim.events:
-                if isinstance(ev, probes.ProbeEvent) and ev.bump:
-                    bump.append([int(ev.event_id), int(ev.bump)])
+            hooks, bump = declared_hooks(cfg)
             rec.emit("init", hold=rec.holdings(), hooks=hooks, bump=bump,
                      cs=[int(round(rec.U(m.market_id).unit / probes.CASH_UNIT)) if exact else 0 for m in sim.markets],
                      acc=[[bool(a.is_market_accessible(m.market_id)) for m in sim.markets] for a in sim.agents],
@@ -185,6 +203,25 @@ def spoof_runs(n, seed):
             s["maxNormalOrders"] = max(2, s["maxNormalOrders"])
         r = execute(cfg, rng.randrange(2 ** 31))
         r["src"] = "spoof"
+        runs.append(r)
+    return runs
+
+
+def penny_runs(n, seed):
+    """prices next to zero: bids below one tick rest at price 0 and are hit by market orders (fills at price 0 move shares
+    and no cash)"""
+    rng = random.Random(sub_seed(seed, "penny-configs"))
+    runs = []
+    for i in range(n):
+        cfg = random_config(rng)
+        for name in cfg["simulation"]["markets"]:
+            if "marketPrice" in cfg[name]:
+                cfg[name]["marketPrice"] = 2.0 * cfg[name]["tickSize"]
+        for g in ("N", "H"):
+            if g in cfg:
+                cfg[g]["script"] = dict(cfg[g]["script"], penny=True, spread=3, pMarket=0.3, pEmpty=0.1)
+        r = execute(cfg, rng.randrange(2 ** 31))
+        r["src"] = "penny-config"
         runs.append(r)
     return runs
 
